@@ -88,6 +88,20 @@ func scriptsFor[V any](tname string, data func(seed int) []V) []script {
 			v := l.GetClass().Notation().ParseSource(fmt.Sprintf("[%d, %d](Set)", seed+5, seed))
 			return cdc.Notation().Make().FormatValue(v)
 		}},
+		{"ParseSource-rejected", func(seed int) string {
+			// a parse that fails with unread tokens behind the error (the scanner goroutine of the failed
+			// parse is still producing while the caller cleans up)
+			src := fmt.Sprintf("[%d %d, %d](List)", seed+5, seed, seed+1)
+			msg := ""
+			func() {
+				defer func() { msg = fmt.Sprint(recover()) }()
+				cdc.Notation().Make().ParseSource(src)
+			}()
+			if i := strings.Index(msg, "\n"); i > 0 {
+				msg = msg[:i]
+			}
+			return msg
+		}},
 		{"shuffle", func(seed int) string {
 			// collections of different sizes (the result is random: only its being a permutation is reported)
 			d := data(seed)
@@ -164,6 +178,13 @@ func pairUnit[V any](tname string, data func(seed int) []V, i, j int, three bool
 		}
 		o := schedx.Opts{Name: name, Desc: name, SigPrefix: "", CapA: 30000, Bounds: []int{1, 2}, CapB: 30000}
 		parse := strings.HasPrefix(ss[i].name, "ParseSource") || strings.HasPrefix(ss[j].name, "ParseSource")
+		notation := func(n string) bool {
+			return strings.HasPrefix(n, "ParseSource") || strings.HasPrefix(n, "FormatValue") || strings.HasPrefix(n, "String")
+		}
+		if notation(ss[i].name) && notation(ss[j].name) {
+			// scanner, parser and formatter classes keep package-level state: also from a cold start
+			o.ColdStart, o.ColdCap = []int{0, 1}, 30000
+		}
 		if parse {
 			// the scanner/parser pair of a parse has many mutually dependent operations of its own (C11 explores
 			// those); here the question is interference with the other thread: preemption bounding decides
@@ -395,9 +416,16 @@ func firstUse(name string, calls []func() any, sameClass [][2]int) engine.Unit {
 func units(tier string) []engine.Unit {
 	var us []engine.Unit
 	n := len(scriptsFor[int]("int", ints))
+	var names []string
+	for _, sc := range scriptsFor[int]("int", ints) {
+		names = append(names, sc.name)
+	}
 	for i := 0; i < n; i++ {
 		for j := i; j < n; j++ {
 			us = append(us, pairUnit[int]("int", ints, i, j, false))
+			if names[i] == "ParseSource-rejected" || names[j] == "ParseSource-rejected" {
+				continue // the element type plays no part in a parse: once is enough
+			}
 			us = append(us, pairUnit[[]int]("[]int", slices, i, j, false))
 		}
 	}
